@@ -4,6 +4,7 @@ import ChythonModel.Proofs.C14Implicify
 import ChythonModel.Proofs.C14Lazy
 import ChythonModel.Proofs.C14Inverse
 import ChythonModel.Proofs.C14Valid
+import ChythonModel.Proofs.C14Neutral
 /-!
 # C14 — normalisation conserves composition, is idempotent and numbering independent
 
@@ -238,6 +239,206 @@ theorem neutralizeCheck_sound (m o : Mol) (donors acceptors changed : List Nat)
         (changed.filter (donors.contains ·)).length := by
       split at hsz <;> (try split at hsz) <;> simp only [Bool.and_eq_true, beq_iff_eq] at hsz <;> omega
     exact ⟨heavyAtoms_eq_of_skeleton hs, by omega, by omega⟩
+
+/-! ## neutralisation, exactly and atom by atom (`neutralizeExact`, `neutralizeModel`: what the driver's `NEUTX` request runs) -/
+
+/-- **`_neutralize` moves nothing but protons, atom by atom**: for any donors / acceptors, the result has the same bonds, the same
+    atom keys in the same order, and every atom is a `ProtonShift` of itself — its hydrogen count and its charge moved by the
+    same number `k`, element / isotope / radical / stereo mark untouched (`ProtonShift.conserves`: `charge − hydrogens` is
+    conserved for every single atom). No hypothesis on the molecule. -/
+theorem neutralize_moves_only_protons (m o : Mol) (ds as : List Nat) (h : neutralizeWith m ds as = some o) :
+    o.adj = m.adj ∧ o.ids = m.ids ∧ ∀ x a, m.atom? x = some a → ∃ a', o.atom? x = some a' ∧ ProtonShift a a' :=
+  neutralizeWith_protonMove m o ds as h
+
+/-- what a `ProtonShift` conserves: everything but `(hydrogens, charge)`, and the difference `charge − hydrogens` -/
+theorem proton_shift_conserves (a a' : Atom) (h : ProtonShift a a') :
+    a'.z = a.z ∧ a'.isotope = a.isotope ∧ a'.radical = a.radical ∧ a'.stereo = a.stereo ∧
+    a'.implH.isSome = a.implH.isSome ∧
+    a'.charge - ((a'.implH.getD 0 : Nat) : Int) = a.charge - ((a.implH.getD 0 : Nat) : Int) :=
+  h.conserves
+
+/-- a proton shift that does something: `[NH3+]` → `NH2` -/
+example : ProtonShift { z := 7, charge := 1, implH := some 3 } { z := 7, charge := 0, implH := some 2 } :=
+  Or.inr ⟨3, 2, rfl, by simp⟩
+
+/-- **The exact result of `_neutralize(keep_charge)`** (every case in which the code's answer does not depend on set order):
+    it is a pure proton move; with `keep_charge=True` as many protons are taken as are given, so the heavy atoms, the net charge
+    and the hydrogen count are all conserved; with `keep_charge=False` net charge and hydrogen count change by the same number
+    `|acceptors| − |donors|`; the reported `changed` atoms are `donors | acceptors`. -/
+theorem neutralize_exact_conserves (kc : Bool) (m o : Mol) (ds as ch : List Nat)
+    (h : neutralizeExact kc m ds as = some (.exact o ch)) (hnd : m.ids.Nodup) (hc : AllCounted m) :
+    heavyAtoms o = heavyAtoms m ∧ ch = setUnion ds as ∧
+    netCharge o - netCharge m = (as.length : Int) - ds.length ∧ hydrogens o - hydrogens m = (as.length : Int) - ds.length ∧
+    (kc = true → netCharge o = netCharge m ∧ hydrogens o = hydrogens m) := by
+  have key : ∀ (hw : neutralizeWith m ds as = some o), heavyAtoms o = heavyAtoms m ∧
+      netCharge o - netCharge m = (as.length : Int) - ds.length ∧ hydrogens o - hydrogens m = (as.length : Int) - ds.length := by
+    intro hw
+    obtain ⟨hs, _, hq, hh⟩ := neutralizeWith_spec m o ds as hw hnd hc
+    exact ⟨heavyAtoms_eq_of_skeleton hs, hq, hh⟩
+  unfold neutralizeExact at h
+  split at h
+  · rename_i hkc
+    split at h
+    · simp at h
+    · split at h
+      · rename_i hlen
+        obtain ⟨o', hw, he⟩ := Option.map_eq_some_iff.mp h
+        simp only [NeutOut.exact.injEq] at he
+        obtain ⟨rfl, rfl⟩ := he
+        obtain ⟨a, b, c⟩ := key hw
+        have hl : ds.length = as.length := by simpa using hlen
+        exact ⟨a, rfl, b, c, fun _ => ⟨by omega, by omega⟩⟩
+      · simp at h
+  · rename_i hkc
+    split at h
+    · simp at h
+    · obtain ⟨o', hw, he⟩ := Option.map_eq_some_iff.mp h
+      simp only [NeutOut.exact.injEq] at he
+      obtain ⟨rfl, rfl⟩ := he
+      obtain ⟨a, b, c⟩ := key hw
+      exact ⟨a, rfl, b, c, fun hk => absurd hk hkc⟩
+
+/-- the hypotheses are met by a zwitterion with something to do: glycine `[NH3+]CC([O-])=O`, donor 1, acceptor 4 -/
+example : ∃ o ch, neutralizeExact true
+    ⟨[(1, { z := 7, charge := 1, implH := some 3 }), (2, { z := 6, implH := some 2 }), (3, { z := 6, implH := some 0 }),
+      (4, { z := 8, charge := -1, implH := some 0 }), (5, { z := 8, implH := some 0 })],
+     [(1, [(2, { order := 1 })]), (2, [(1, { order := 1 }), (3, { order := 1 })]),
+      (3, [(2, { order := 1 }), (4, { order := 1 }), (5, { order := 2 })]), (4, [(3, { order := 1 })]), (5, [(3, { order := 2 })])]⟩
+    [1] [4] = some (.exact o ch) ∧ ch = [1, 4] ∧ netCharge o = 0 := ⟨_, _, rfl, rfl, by decide⟩
+
+/-! ## `standardize_charges` (`standardizeCharges`: what the driver's `CHG` request runs) -/
+
+/-- **`standardize_charges` writes nothing but formal charges**: for every molecule, labels, components, rings and Morgan ranks,
+    a finished run returns a molecule that is *identical* to the input once all charges are erased — same atoms (numbers, order,
+    elements, isotopes, radicals, hydrogen counts, stereo marks), same bonds and bond orders. -/
+theorem standardize_charges_writes_only_charges (m : Mol) (L : Labels) (comps sssr : List (List Nat))
+    (orders : List (List (Nat × Nat))) (o : Mol) (ch : List Nat)
+    (h : standardizeCharges m L comps sssr orders = some (.done o ch)) : uncharged o = uncharged m :=
+  standardizeCharges_uncharged m L comps sssr orders o ch h
+
+/-- hence the composition is conserved: bonds, heavy atoms, every atom's hydrogen count, the total hydrogen count -/
+theorem standardize_charges_keeps_composition (m : Mol) (L : Labels) (comps sssr : List (List Nat))
+    (orders : List (List (Nat × Nat))) (o : Mol) (ch : List Nat)
+    (h : standardizeCharges m L comps sssr orders = some (.done o ch)) :
+    o.adj = m.adj ∧ heavyAtoms o = heavyAtoms m ∧ hydrogens o = hydrogens m ∧
+    o.atoms.map (fun p => (p.1, p.2.z, p.2.isotope, p.2.radical, p.2.implH, p.2.stereo)) =
+      m.atoms.map (fun p => (p.1, p.2.z, p.2.isotope, p.2.radical, p.2.implH, p.2.stereo)) := by
+  have hu := standardizeCharges_uncharged m L comps sssr orders o ch h
+  have hs := skeleton_of_uncharged hu
+  refine ⟨adj_of_uncharged hu, heavyAtoms_eq_of_skeleton hs, ?_, atomView_of_uncharged hu⟩
+  unfold hydrogens explicitH
+  rw [hs, implSum_of_uncharged hu]
+
+/-- a live match has the charges its pattern asks for: if a non-metal query atom `u` of pattern `p` compares equal to atom `x`
+    of the live molecule (`atomOk` = `QueryElement.__eq__`, C08's model), `x` carries exactly the pattern charge -/
+theorem live_match_has_pattern_charge (p : Pattern) (m : Mol) (L : Labels) (u x : Nat) (q : Query.QAtom)
+    (hq : p.atoms.lookup u = some q) (hk : q.kind ≠ .metal) (h : atomOk p m L u x = true) :
+    ∃ a, m.atom? x = some a ∧ a.charge = q.charge := by
+  unfold atomOk at h
+  rw [hq] at h
+  cases hl : liveAtom m L x with
+  | none => simp [hl] at h
+  | some ma =>
+    simp only [hl] at h
+    unfold liveAtom at hl
+    cases ha : m.atom? x with
+    | none => simp [ha, bind] at hl
+    | some a =>
+      cases hlab : L.atoms.lookup x with
+      | none => simp [ha, hlab, bind] at hl
+      | some l =>
+        simp only [ha, hlab, bind, Option.bind, pure, Option.some.injEq] at hl
+        subst hl
+        refine ⟨a, rfl, ?_⟩
+        have tail : ∀ iso, Query.extendedTail q iso
+            { z := a.z, isotope := a.isotope, charge := a.charge, radical := a.radical, neighbors := l.neighbors,
+              hybridization := l.hybridization, ringSizes := l.ringSizes, implH := a.implH, heteroatoms := l.heteroatoms } = true →
+            a.charge = q.charge := by
+          intro iso ht
+          unfold Query.extendedTail at ht
+          split at ht
+          · simp at ht
+          · rename_i hne
+            simp only [bne_iff_ne, ne_eq, Decidable.not_not] at hne
+            exact hne.symm
+        unfold Query.pyEq at h
+        split at h
+        · split at h
+          · simp at h
+          · exact tail _ h
+        · exact tail _ h
+        · split at h
+          · simp at h
+          · exact tail _ h
+        · rename_i hm; exact absurd hm hk
+
+/-- no pattern of the charge-position tables contains a metal atom (so every atom of a match is charge-tested) -/
+theorem charge_rules_have_no_metal_atoms :
+    ∀ r ∈ fixedRules ++ morganRules, (r.atoms.all fun nq => nq.2.kind != .metal) = true := by decide +kernel
+
+/-- Full statement (not proved): `standardize_charges` conserves the net charge of every molecule with unique atom numbers.
+    Missing: (a) the generator is lazy — a mapping may have been assembled from candidate tests made *before* an earlier loop
+    body rewrote a charge, so "the mapping matches the live molecule" is not an invariant of the loop; (b) the Morgan pairs
+    (charge removed in the loop, put back after the ranking) and (c) the ferrocene branch. Validated on the real code by the
+    relational oracle `net-charge` of `canonicalize`, and by the `CHG` correspondence on every run. -/
+def StandardizeChargesConservesCharge : Prop :=
+  ∀ (m : Mol) (L : Labels) (comps sssr : List (List Nat)) (orders : List (List (Nat × Nat))) (o : Mol) (ch : List Nat),
+    m.ids.Nodup → standardizeCharges m L comps sssr orders = some (.done o ch) → netCharge o = netCharge m
+
+/-- **Proved part — one application of a `fixed_rules` entry conserves the net charge whenever the mapping matches the live
+    molecule.** For every rule of the regenerated `fixed_rules` table: if the source atom (`mapping[3]` if `fix` else
+    `mapping[1]`) and `mapping[2]` are distinct atoms that compare equal to their query atoms *now* (`atomOk` on the current
+    molecule), the loop body — whatever branch it takes — leaves the net charge unchanged: it takes `+1` from an atom that has
+    it and gives it to a neutral one. -/
+theorem fixed_rule_step_conserves_charge_partial (r : ChargeRule) (hr : r ∈ fixedRules) (L : Labels) (st st' : CState) (mp : Iso.Dict)
+    (hnd : st.mol.ids.Nodup) (h : chargeBody false r.fix st mp = some st')
+    (live : ∀ u x, mp.lookup u = some x → atomOk r.toPattern st.mol L u x = true)
+    (inj : ∀ u v x, mp.lookup u = some x → mp.lookup v = some x → u = v) :
+    netCharge st'.mol = netCharge st.mol := by
+  rcases chargeBody_fixed_cases r.fix st mp st' h with he | ⟨s, t, m1, hs, ht, h1, h2⟩
+  · rw [he]
+  · have hmem : r ∈ fixedRules ++ morganRules := List.mem_append_left _ hr
+    have hmove := charged_rules_move_one_charge r hmem
+    have hnm := charge_rules_have_no_metal_atoms r hmem
+    unfold chargeRuleMovesOne at hmove
+    simp only [Bool.and_eq_true, beq_iff_eq] at hmove
+    obtain ⟨⟨hsrc, h2c⟩, _⟩ := hmove
+    -- the two query atoms and their charges
+    obtain ⟨qs, hqs, hqsc⟩ : ∃ q, r.atoms.lookup (if r.fix then 3 else 1) = some q ∧ q.charge = 1 := by
+      cases hq : r.atoms.lookup (if r.fix then 3 else 1) with
+      | none => simp [hq] at hsrc
+      | some q => exact ⟨q, rfl, by simpa [hq] using hsrc⟩
+    obtain ⟨qt, hqt, hqtc⟩ : ∃ q, r.atoms.lookup 2 = some q ∧ q.charge = 0 := by
+      cases hq : r.atoms.lookup 2 with
+      | none => simp [hq] at h2c
+      | some q => exact ⟨q, rfl, by simpa [hq] using h2c⟩
+    have nonMetal : ∀ u q, r.atoms.lookup u = some q → q.kind ≠ .metal := by
+      intro u q hq
+      have hin : (u, q) ∈ r.atoms := mem_of_lookup_eq_some _ _ _ hq
+      have := List.all_eq_true.mp hnm (u, q) hin
+      simpa using this
+    obtain ⟨as, has, hasc⟩ := live_match_has_pattern_charge r.toPattern st.mol L _ s qs hqs (nonMetal _ _ hqs) (live _ _ hs)
+    obtain ⟨at', hat, hatc⟩ := live_match_has_pattern_charge r.toPattern st.mol L 2 t qt hqt (nonMetal _ _ hqt) (live _ _ ht)
+    have hne : t ≠ s := by
+      intro e
+      subst e
+      have := inj _ _ _ hs ht
+      split at this <;> omega
+    have e1 := netCharge_setCharge as hnd has h1
+    have hat1 : m1.atom? t = some at' := by rw [atom?_setCharge_ne hne h1]; exact hat
+    have hnd1 : m1.ids.Nodup := by rw [setCharge_ids h1]; exact hnd
+    have e2 := netCharge_setCharge at' hnd1 hat1 h2
+    rw [e2, e1, hasc, hatc, hqsc, hqtc]
+    omega
+
+/-- the hypotheses are satisfiable and the step does something: rule `fixed[0]` (`fix = false`) on a three-atom stand-in whose
+    atoms 1 and 2 carry `+1` and `0`: the charge moves from atom 1 to atom 2 -/
+example : ∃ st', chargeBody false false
+      { mol := ⟨[(1, { z := 7, charge := 1, implH := some 1 }), (2, { z := 7, implH := some 1 }), (3, { z := 7, implH := some 0 })],
+                [(1, [(3, { order := 4 }), (2, { order := 4 })]), (2, [(1, { order := 4 }), (3, { order := 4 })]),
+                 (3, [(1, { order := 4 }), (2, { order := 4 })])]⟩ }
+      [(1, 1), (2, 2), (3, 3)] = some st' ∧ netCharge st'.mol = 1 ∧ (st'.mol.atom? 2).map (·.charge) = some 1 :=
+  ⟨_, rfl, by decide, by decide⟩
 
 /-! ## explicit / implicit hydrogens -/
 
